@@ -58,6 +58,42 @@ class _Filter:
         return getattr(self._c, n)
 
 
+
+def match_by_evaluation(fb, ctx, b, h, tv):
+    """EVAL: the closure of match_preds that compares one rule term with one fact term, interpreted for every pair of Term variants
+    with equal and with different payloads: a variable in the fact never matches, a variable in the rule matches anything, equal
+    variants match iff their payloads are equal, different variants never match. Any shape (tuple match, nested matches, matches!)."""
+    import absint
+    cls = [c for c in find_all(h["body"], lambda z: z.get("k") == "closure" and len(z.get("params") or []) == 1)]
+    cls = [c for c in cls if c["params"][0].get("k") == "tuple" and len(c["params"][0]["pats"]) == 2]
+    if len(cls) != 1:
+        return False
+    cl = cls[0]
+    adt = fb.adt(TERM)
+    arity = {v["name"]: len(v["fields"]) for v in adt["variants"]}
+    names = [v.split("::")[-1] for v in tv]
+    bad, cells = {}, 0
+    try:
+        for l in names:
+            for r in names:
+                for same in ((True, False) if (l == r and arity[l]) else (True,)):
+                    lv = absint.C(l, *([1] * arity[l]))
+                    rv = absint.C(r, *([1 if same else 2] * arity[r]))
+                    env = {}
+                    it = absint.Interp()
+                    if not it.bind(cl["params"][0], ("T", [lv, rv]), env):
+                        return False
+                    got = it.run(cl["body"], env)
+                    want = False if r == "Variable" else True if l == "Variable" else (l == r and same)
+                    cells += 1
+                    if got is not want:
+                        bad.setdefault(l, []).append((l, r, "equal payloads" if same else "different payloads", got))
+    except absint.Unknown:
+        return False
+    for l in names:
+        ctx.check(l not in bad, "MATCH", f"match_preds row Term::{l}", f"MATCH|{l}", f"wrong matching result for (rule term, fact term) cells {bad.get(l, [])[:4]}", f"{b['file']}:{cl.get('ln', b['line'])}")
+    return True
+
 def json_ty(let_node):
     """type text of the value a `let` destructures, as far as the HIR-lite records it (scrutinee type of the `?` match inside)"""
     tys = [z.get("sty") or "" for z in find_all(let_node.get("init") or {}, lambda z: z.get("k") == "match")]
@@ -88,10 +124,12 @@ def shared_rules(fb, ctx, pid, only=None):
     b = fb.body(D + "::match_preds")
     h = fb.hir_of(b)
     ms = [m for m in hirq.matches_in(h["body"]) if (m.get("sty") or "").replace(" ", "") == "(&datalog::Term,&datalog::Term)"]
-    if len(ms) != 1:
+    if match_by_evaluation(fb, ctx, b, h, tv):
+        ms = None
+    elif len(ms) != 1:
         raise CheckerError("anchor: term-pair match in match_preds not found")
-    m = ms[0]
-    tab = hirq.cell_table(m, [tv, tv])
+    m = ms[0] if ms else None
+    tab = hirq.cell_table(m, [tv, tv]) if m is not None else {}
     VAR = TERM + "::Variable"
 
     def arm_kind(arm):
@@ -107,7 +145,7 @@ def shared_rules(fb, ctx, pid, only=None):
         return ("other",)
 
     bad = []
-    for l in tv:
+    for l in (tv if m is not None else []):
         for r in tv:
             i = tab.get((l, r))
             kind = arm_kind(m["arms"][i]) if i is not None else ("none",)
@@ -121,7 +159,7 @@ def shared_rules(fb, ctx, pid, only=None):
                 want = [("const", False)]
             if kind not in want:
                 bad.append((l.split("::")[-1], r.split("::")[-1], kind))
-    for v in tv:
+    for v in (tv if m is not None else []):
         sv = v.split("::")[-1]
         mine = [x for x in bad if x[0] == sv]
         ctx.check(not mine, "MATCH", f"match_preds row Term::{sv}", f"MATCH|{sv}", f"wrong matching result for (rule term, fact term) cells {mine[:4]}", f"{b['file']}:{m['ln']}")
@@ -134,10 +172,19 @@ def shared_rules(fb, ctx, pid, only=None):
     # ---- UNIFY
     nb = fb.body("<datalog::CombineIt<'a, IT> as std::iter::Iterator>::next")
     ins = mirq.calls_matching(fb, nb, r"datalog::MatchedVariables::insert$")
+    owner_ = nb
+    if not ins:
+        # `.all(|(key, id)| match key { Variable(k) => vars.insert(*k, id), _ => true })`: the call sits in a closure of next; its
+        # boolean must then be the closure's result (the adaptor consumes it) - `returned` in the closure body
+        for ck, cb in fb.bodies.items():
+            if cb.get("kind") == "Closure" and (cb.get("parent") == nb["key"] or ck.startswith(nb["key"] + "::")):
+                cins = mirq.calls_matching(fb, cb, r"datalog::MatchedVariables::insert$")
+                if cins:
+                    ins, owner_ = cins, cb
     if len(ins) != 1:
         ctx.fail("UNIFY", "CombineIt::next unifies through MatchedVariables::insert", "UNIFY|call", f"expected one call to MatchedVariables::insert in CombineIt::next, found {len(ins)}: variables are bound without the bind-or-compare step", f"{nb['file']}:{nb['line']}")
     else:
-        mirq.result_used(fb, ctx, nb, ins[0], "UNIFY", "result of vars.insert() decides whether the fact matches", "UNIFY|used")
+        mirq.result_used(fb, ctx, owner_, ins[0], "UNIFY", "result of vars.insert() decides whether the fact matches", "UNIFY|used")
     ib = fb.body(D + "::MatchedVariables::insert")
     ih = fb.hir_of(ib)
     im = [x for x in hirq.matches_in(ih["body"]) if "Option<&std::option::Option<datalog::Term>>" in (x.get("sty") or "")]
@@ -181,10 +228,17 @@ def shared_rules(fb, ctx, pid, only=None):
         raise CheckerError("anchor: main loop of run_with_limits")
     stmts = loops[0]["body"]["stmts"] + ([loops[0]["body"]["expr"]] if loops[0]["body"].get("expr") else [])
     idx_len = idx_merge = idx_if = None
-    len_name = None
+    len_lets = {}     # binding id -> statement index, for `let x = <facts>.len()`
     for i, s in enumerate(stmts):
-        if s.get("k") == "let" and s.get("init") and mcalls(s["init"], r"datalog::FactSet::len$") and strip(s["init"]).get("k") == "mcall":
-            idx_len, len_name = i, s["pat"].get("name")
+        e = s.get("e") if s.get("k") == "semi" else s
+        if isinstance(e, dict) and e.get("k") == "mcall" and (e.get("def") or {}).get("path", "").endswith("FactSet::merge"):
+            idx_merge = i
+        if s.get("k") == "let" and s.get("init") and mcalls(s["init"], r"datalog::FactSet::len$") and strip(s["init"]).get("k") == "mcall" and isinstance(s.get("pat"), dict) and s["pat"].get("k") == "bind":
+            len_lets[s["pat"]["id"]] = i
+    pre_ids = {i_ for i_, n_ in len_lets.items() if idx_merge is not None and n_ < idx_merge}
+    post_ids = {i_ for i_, n_ in len_lets.items() if idx_merge is not None and n_ > idx_merge}
+    idx_len = min((len_lets[i_] for i_ in pre_ids), default=None)
+    for i, s in enumerate(stmts):
         e = s.get("e") if s.get("k") == "semi" else s
         if isinstance(e, dict) and e.get("k") == "mcall" and (e.get("def") or {}).get("path", "").endswith("FactSet::merge"):
             idx_merge = i
@@ -192,7 +246,8 @@ def shared_rules(fb, ctx, pid, only=None):
             brk = [x for x in find_all(e["then"], lambda n: n.get("k") == "break") if (hirq.ctor_name(strip(x.get("e"))) or "").endswith("::Ok")]
             if brk:
                 c = strip(e["cond"])
-                good = c.get("k") == "binary" and c.get("op") == "Eq" and ((mcalls(c["a"], r"FactSet::len$") and is_local(strip(c["b"]), len_name)) or (mcalls(c["b"], r"FactSet::len$") and is_local(strip(c["a"]), len_name)))
+                post = lambda z: bool(mcalls(z, r"FactSet::len$")) or hirq.is_lid(strip(z), post_ids)      # the size after the merge
+                good = c.get("k") == "binary" and c.get("op") == "Eq" and ((post(c["a"]) and hirq.is_lid(strip(c["b"]), pre_ids)) or (post(c["b"]) and hirq.is_lid(strip(c["a"]), pre_ids)))
                 idx_if = i if good else -1
     all_ok_breaks = [x for x in find_all(loops[0], lambda n: n.get("k") == "break") if (hirq.ctor_name(strip(x.get("e"))) or "").endswith("::Ok")]
     ctx.check(idx_len is not None and idx_merge is not None and idx_if not in (None, -1) and idx_len < idx_merge < idx_if and len(all_ok_breaks) == 1, "FIXPOINT", "loop leaves with Ok only when merge added nothing", "FIXPOINT|exit",
@@ -267,6 +322,11 @@ def shared_rules(fb, ctx, pid, only=None):
         for o in ops:
             if isinstance(o, dict):
                 lv |= mirq.leaves_at(fb, ub, o, i)
+        if len(rets) == 1:
+            # a single exit: mutation through `&mut` (`inner.extend(other..)`) is only visible to the flow-insensitive analysis
+            for o in ops:
+                if isinstance(o, dict):
+                    lv |= mirq.operand_leaves(fb, ub, o)
         has1, has2 = any(x.startswith("arg1") for x in lv), any(x.startswith("arg2") for x in lv)
         if has1 and has2:
             continue
